@@ -498,4 +498,72 @@ pub fn check_containers(rng: &mut Rng, pool: &mut Pool, v: &mut Vec<Violation>, 
         pool.add("DenseNatMap", format!("{:?}", base), stateright::verif_fingerprint(&dm), calls(&dm), "from vec", no_diff, v);
         c.add("identity_container_values", 4);
     }
+    // T: consistency testers (they are the history component of register-harness states). The same
+    // per-thread operations recorded under different interleavings: a sequential-consistency tester
+    // only knows the per-thread sequences; a linearizability tester also knows, per operation, how
+    // many operations of each peer had returned when it was invoked (real-time precedence).
+    {
+        use stateright::semantics::register::{Register, RegisterOp, RegisterRet};
+        use stateright::semantics::{ConsistencyTester, LinearizabilityTester, SequentialConsistencyTester};
+        let threads = rng.range(2, 3) as usize;
+        let scripts: Vec<Vec<(u8, u8)>> = (0..threads).map(|_| (0..rng.range(1, 2)).map(|_| (rng.below(2) as u8, rng.below(2) as u8)).collect()).collect();
+        // the last operation of a thread may stay in flight
+        let in_flight: Vec<bool> = (0..threads).map(|_| rng.chance(1, 3)).collect();
+        let mut lin_seen: Vec<(String, LinearizabilityTester<u8, Register<u8>>)> = Vec::new();
+        let mut sc_seen: Vec<(String, SequentialConsistencyTester<u8, Register<u8>>)> = Vec::new();
+        for _ in 0..4 {
+            let mut lin: LinearizabilityTester<u8, Register<u8>> = LinearizabilityTester::new(Register(0));
+            let mut sc: SequentialConsistencyTester<u8, Register<u8>> = SequentialConsistencyTester::new(Register(0));
+            // position in each script: 2*i = about to invoke op i, 2*i+1 = about to return from op i
+            let mut pos = vec![0usize; threads];
+            let mut completed = vec![0usize; threads];
+            let mut lin_dump: Vec<Vec<String>> = vec![Vec::new(); threads];
+            let mut sc_dump: Vec<Vec<String>> = vec![Vec::new(); threads];
+            loop {
+                let movable: Vec<usize> = (0..threads)
+                    .filter(|t| {
+                        let end = 2 * scripts[*t].len() - if in_flight[*t] { 1 } else { 0 };
+                        pos[*t] < end
+                    })
+                    .collect();
+                if movable.is_empty() {
+                    break;
+                }
+                let t = *rng.pick(&movable);
+                let (opc, retc) = scripts[t][pos[t] / 2];
+                if pos[t] % 2 == 0 {
+                    let op = if opc == 0 { RegisterOp::Read } else { RegisterOp::Write(retc) };
+                    let _ = lin.on_invoke(t as u8, op.clone());
+                    let _ = sc.on_invoke(t as u8, op.clone());
+                    let snap: Vec<(usize, usize)> = (0..threads).filter(|p| *p != t && completed[*p] > 0).map(|p| (p, completed[p])).collect();
+                    lin_dump[t].push(format!("{:?} after {:?}", op, snap));
+                    sc_dump[t].push(format!("{:?}", op));
+                } else {
+                    let ret = if opc == 0 { RegisterRet::ReadOk(retc) } else { RegisterRet::WriteOk };
+                    let _ = lin.on_return(t as u8, ret.clone());
+                    let _ = sc.on_return(t as u8, ret.clone());
+                    completed[t] += 1;
+                    lin_dump[t].last_mut().unwrap().push_str(&format!(" -> {:?}", ret));
+                    sc_dump[t].last_mut().unwrap().push_str(&format!(" -> {:?}", ret));
+                }
+                pos[t] += 1;
+            }
+            let (ld, sd) = (format!("{:?}", lin_dump), format!("{:?}", sc_dump));
+            pool.add("LinearizabilityTester", ld.clone(), stateright::verif_fingerprint(&lin), calls(&lin), "interleaving", |_, _| "tester-history".to_string(), v);
+            pool.add("SequentialConsistencyTester", sd.clone(), stateright::verif_fingerprint(&sc), calls(&sc), "interleaving", |_, _| "tester-history".to_string(), v);
+            for (d0, t0) in &lin_seen {
+                if (*d0 == ld) != (*t0 == lin) {
+                    v.push(Violation::new("C04", "eq-mismatch:LinearizabilityTester", format!("== says {} for histories {} and {}", *t0 == lin, d0, ld)));
+                }
+            }
+            for (d0, t0) in &sc_seen {
+                if (*d0 == sd) != (*t0 == sc) {
+                    v.push(Violation::new("C04", "eq-mismatch:SequentialConsistencyTester", format!("== says {} for histories {} and {}", *t0 == sc, d0, sd)));
+                }
+            }
+            lin_seen.push((ld, lin));
+            sc_seen.push((sd, sc));
+        }
+        c.add("identity_tester_values", 8);
+    }
 }
